@@ -45,19 +45,84 @@ def gen(tier, seed):
     return cases
 
 
+# ---- the EnumType API on its own (Set / SetNext call sequences): per-call verdicts and the final maps, so that
+# the state after a REJECTED call is observed (through Type.resolve only the presence of an error is comparable)
+API_ENUM = [0, 1, -1, 5, 2147483646, 2147483647, 2147483648, -2147483648, -2147483649]
+API_BITS = [0, 1, -1, 5, 2147483647, 4294967294, 4294967295, 4294967296]
+API_CORE = {0: [0, 1, 2147483646, 2147483647, -2147483648], 1: [0, 1, 4294967294, 4294967295]}
+API_WIDE = [P63 - 1, -P63, 3, 2, -2, 7, 100]
+
+
+def api_case(bits, ops):
+    return "enumapi %d %s" % (bits, ",".join(ops) if ops else "-")
+
+
+def api_ops(names, values):
+    return ["n:%s" % hexs(n) for n in names] + ["s:%s:%d" % (hexs(n), v) for n in names for v in values]
+
+
+def gen_api(tier, seed):
+    rnd = random.Random(seed ^ 0xC14)
+    cases = []
+    for bits, full in ((0, API_ENUM), (1, API_BITS)):
+        cases.append(api_case(bits, []))
+        two, three = api_ops(["a", "b"], full), api_ops(["a", "b", "c"], full)
+        # exhaustive: length <= 3 over two and three names x all boundary values;
+        # length 4 over two names x the core boundary values (all values in thorough)
+        for k in (1, 2, 3):
+            for ops in itertools.product(three if k < 3 else two, repeat=k):
+                cases.append(api_case(bits, ops))
+        four = two if tier == "thorough" else api_ops(["a", "b"], API_CORE[bits])
+        for ops in itertools.product(four, repeat=4):
+            cases.append(api_case(bits, ops))
+        # a rejected call (repeated name / value / out of range / no next value) followed by SetNext calls
+        for first in two:
+            for bad in two:
+                cases.append(api_case(bits, [first, bad, "n:%s" % hexs("c"), "n:%s" % hexs("d"), bad, "n:%s" % hexs("e")]))
+        # random longer sequences with forced repeats
+        names = ["a", "b", "c", "d", "e", "f", ""]
+        pool = full + API_WIDE
+        for _ in range(4000 if tier == "quick" else 80000):
+            k = rnd.randint(5, 10)
+            ops, last = [], None
+            for _i in range(k):
+                n = rnd.choice(names[:3]) if rnd.random() < 0.3 else rnd.choice(names)
+                r = rnd.random()
+                if r < 0.5:
+                    ops.append("n:%s" % hexs(n))
+                elif r < 0.65 and last is not None:
+                    ops.append("s:%s:%d" % (hexs(n), last + rnd.choice((-1, 0, 0, 1))))
+                else:
+                    last = rnd.choice(pool)
+                    ops.append("s:%s:%d" % (hexs(n), last))
+            cases.append(api_case(bits, ops))
+    return cases
+
+
 def run(res, tier, seed, proof):
     cases = gen(tier, seed)
     go, ml, mism, skipped = simple_run(lib, res, cases)
+    acases = gen_api(tier, seed)
+    ago, aml, amism, askipped = simple_run(lib, res, acases)
+    rejected_then_ok = sum(1 for g in ago if "eo" in g.split()[0])
     outs = {}
     for g in go:
         outs[g.split()[0]] = outs.get(g.split()[0], 0) + 1
-    cov = dict(evaluations=len(cases), distinct_nontrivial=len({c for c in cases if c.count(",") >= 1}),
+    cov = dict(evaluations=len(cases) + len(acases),
+               distinct_nontrivial=len({c for c in cases if c.count(",") >= 1}) + len({c for c in acases if c.count(",") >= 1}),
                rule="member sequences run through a real module and Type.resolve: exhaustive over %d literal forms for length 1-2, "
                     "over a 12-value core for length 3 (4 in thorough), forced name collisions, random longer sequences; "
-                    "non-trivial = at least two members; observable = error presence, else name->value and value->name maps" % len(VALUES),
-               mismatches=mism, skipped_unmodelled=skipped, distribution=dict(impl_outcomes=outs),
-               samples=[cases[40], cases[len(cases) // 2], cases[-1]], sample_observations=[go[40], go[len(cases) // 2], go[-1]])
-    return cov, ["member names are plain identifiers; after the first recorded error only the presence of an error is compared"]
+                    "non-trivial = at least two members; observable = error presence, else name->value and value->name maps.  "
+                    "Plus the EnumType API alone (NewEnumType/NewBitfield, Set, SetNext, NameMap, ValueMap): all call sequences of length <= 3 "
+                    "over three names x %d/%d boundary values, all of length 4 over two names x the core boundary values (all values in "
+                    "thorough), rejected-call-then-SetNext patterns, random sequences of 5-10 calls; observable = verdict of every call "
+                    "and the final maps (so the state after a rejected call is compared)" % (len(VALUES), len(API_ENUM), len(API_BITS)),
+               mismatches=mism + amism, skipped_unmodelled=skipped + askipped,
+               distribution=dict(impl_outcomes=outs, api_cases=len(acases), api_sequences_with_an_accepted_call_after_a_rejected_one=rejected_then_ok),
+               samples=[cases[40], cases[len(cases) // 2], cases[-1], acases[len(acases) // 2], acases[-1]],
+               sample_observations=[go[40], go[len(cases) // 2], go[-1], ago[len(acases) // 2], ago[-1]])
+    return cov, ["member names are plain identifiers; through Type.resolve, after the first recorded error only the presence of an "
+                 "error is compared (the state after a rejected member is compared through the EnumType API sequences)"]
 
 
 def replay(rep, res):
